@@ -1044,7 +1044,6 @@ def wl_C17(rng, w, cfg, index):
 # ---------------------------------------------------------------------------------- C09: read seam
 def wl_C09(rng, w, cfg, index):
     from . import docgen
-    from .simfs import MOUNT
     corrupt = rng.random() < cfg.get('p_corrupt', 0.5)
     writer = 'library' if rng.random() < 0.4 else 'foreign'
     if rng.random() < cfg.get('p_real', 0.06):
@@ -1088,7 +1087,7 @@ def wl_C09(rng, w, cfg, index):
         w.count('c09.documents.' + writer.split()[0])
         if rng.random() < 0.2:
             yield {'op': 'FAULT', 'kind': 'fs.encoding', 'params': {'encoding': rng.choice(['ascii', 'latin-1', 'cp1252'])}}
-        n = len(w.fs.files.get(MOUNT + 'f.xml', b''))
+        n = len(w.fs.files.get(w.fs.mount + 'f.xml', b''))
         if corrupt and n:
             for _ in range(rng.choice([1, 1, 1, 2])):
                 k = rng.choice(['disk.token_rot'] * 6 + ['disk.truncate', 'disk.flip', 'disk.zero_sector', 'disk.dup_sector',
